@@ -18,11 +18,11 @@ from fractions import Fraction
 from ..runner import ROOT, Infra
 
 THEOREMS = [
-    "mpf2float_normal", "mpf2float_ge_min_normal", "overflow", "tiny", "zero_iff", "two_step", "loop_dead",
-    "representable_exact", "flush_partial", "flush_eq", "flush_edge_witness", "normal_flush_partial",
-    "plumbing_partial", "plumbing_actual", "plumbing_neg_unspecified", "plumbing_neg_true",
-    "identity_flush_neg_witness", "subnormal_double_rounding_witness", "subnormal_sliver_witness",
-    "work_prec", "specials", "tables", "roundV_nearest", "roundV_tie_even", "roundV_canonical",
+    "formats_valid", "mpf2float_normal", "mpf2float_ge_min_normal", "overflow", "overflow_iff", "tiny", "zero_iff", "two_step",
+    "representable_exact", "loop_dead", "flush_eq", "flush_partial", "flush_threshold", "flush_edge_witness", "normal_flush_witness",
+    "subnormal_double_rounding_witness", "subnormal_sliver_witness", "plumbing_actual", "plumbing_partial", "plumbing_neg_unspecified",
+    "plumbing_neg_true", "identity_flush_neg_witness", "work_prec", "specials", "tables", "roundV_canonical", "roundV_nearest",
+    "roundV_tie_even", "roundV_inf_iff", "decode_pack", "identity",
 ]
 SEARCHED = [
     "a function evaluated through the backend returns the correctly rounded result (needs mpmath's own accuracy: "
